@@ -28,7 +28,7 @@ CENSUS = {
             '<VerifiableHeader as VerifiableHeaderPatch>::checked_total_difficulty',
             'LightClientProtocol::check_pow_for_headers', 'LightClientProtocol::check_chain_root_for_headers',
             'LightClientProtocol::check_verifiable_header', 'ProveRequest::is_same_as', 'LastState::is_same_as'],
-    'C02': ['check_block_body', 'verify_extra_hash', '~+Peers::add_block', '~TransactionsProofRequest::check_tx_hashes', '~BlocksProofRequest::check_block_hashes'],
+    'C02': ['verify_mmr_proof', 'check_block_body', 'verify_extra_hash', '~+Peers::add_block', '~TransactionsProofRequest::check_tx_hashes', '~BlocksProofRequest::check_block_hashes'],
     'C06': ['Peers::calc_check_point_number', 'Peers::calc_cached_check_point_index_when_sync_at',
             '+LatestBlockFilterHashes::update_latest_block_filter_hashes', '~+Peers::get_latest_block_filter_hashes',
             'LatestBlockFilterHashes::get_last_number'],
@@ -71,7 +71,7 @@ HANDLERS['C16'] = [HANDLERS['C02'][0], HANDLERS['C02'][1], '!LightClientProtocol
 CENSUS['C16'].extend(HANDLERS['C16'])
 CENSUS['C16'].extend(['~TransactionsProofRequest::check_tx_hashes', '~BlocksProofRequest::check_block_hashes'])
 HANDLERS['C09'] = [HANDLERS['C02'][2], HANDLERS['C06'][0]]
-HANDLERS['C08'] = [HANDLERS['C12'][1], HANDLERS['C02'][2], HANDLERS['C06'][0]]
+HANDLERS['C08'] = [HANDLERS['C12'][1], HANDLERS['C02'][2], HANDLERS['C06'][0], HANDLERS['C07'][0]]
 for _k in ('C08', 'C09'):
     CENSUS.setdefault(_k, []).extend(HANDLERS[_k])
 for _k, _v in HANDLERS.items():
